@@ -216,8 +216,11 @@ fit_spline_1d(std::ranges::sized_range auto && dt_r, std::ranges::sized_range au
     rhs.head(N_coef).setZero();
     rhs.tail(N_eq) = b;
 
-    const Eigen::SimplicialLDLT<decltype(H), Eigen::Lower> ldlt(H);
-    return ldlt.solve(rhs).head(N_coef);
+    // The KKT matrix is symmetric indefinite and its (1,1) block scales like dt^(1 - 2 D): an LDLt
+    // factorisation without pivoting loses the constraints for sub-second sampling. Use a pivoted LU.
+    const Eigen::SparseMatrix<double> Hfull = H.template selfadjointView<Eigen::Lower>();
+    const Eigen::SparseLU<Eigen::SparseMatrix<double>> lu(Hfull);
+    return lu.solve(rhs).head(N_coef);
   }
 }
 
